@@ -301,7 +301,7 @@ func ExecCoop(plan *CoopPlan, rc *RunCtx) *Violation {
 		for i, x := range o {
 			if strings.HasPrefix(x, "select:") {
 				x = "select"
-				if o[i] == "select:err" {
+				if strings.HasPrefix(o[i], "select:err") {
 					x = "select:err"
 				}
 			}
@@ -359,9 +359,54 @@ func ExecCoop(plan *CoopPlan, rc *RunCtx) *Violation {
 				ro[i] = "refused"
 			}
 		}
+		// Which outputs a selection picks is not pinned down by the property (the running node serves its
+		// cache first, a cold instance scans the table in key order), and whether a later selection still
+		// finds enough depends on that choice. A selection is therefore judged for admissibility at its
+		// place in the order instead of being re-executed: a successful one must have been handed outputs
+		// that are unspent, unfrozen and not handed out before; a failed one is justified only if what
+		// is left falls short of the amount asked for.
+		handedOut := map[string]bool{}
 		for _, i := range order {
-			ro[i] = execReq(ref, prep[i])
-			rc.RunBG()
+			if prep[i].req.Kind != "select" || os.Getenv("XSIM_C12_REEXEC_SELECT") != "" {
+				ro[i] = execReq(ref, prep[i])
+				rc.RunBG()
+				continue
+			}
+			us, _ := ref.ListUtxos(prep[i].addr)
+			h := ref.L.GetMeta().TrunkHeight
+			free := map[string]*big.Int{}
+			avail := new(big.Int)
+			for _, u := range us {
+				k := utxoKey([]byte(u.Addr), u.Txid, u.Offset)
+				if handedOut[k] || u.Frozen == -1 || u.Frozen > h || u.Amount.Sign() == 0 {
+					continue
+				}
+				free[k] = u.Amount
+				avail.Add(avail, u.Amount)
+			}
+			if outcomes[i] == "select:err" {
+				ro[i] = "select:err"
+				if avail.Cmp(prep[i].need) >= 0 {
+					ro[i] = fmt.Sprintf("select:ok (%s free for %s asked)", avail, prep[i].need)
+				}
+				continue
+			}
+			parts := strings.SplitN(outcomes[i], ":", 3)
+			ro[i] = "select"
+			sum := new(big.Int)
+			if len(parts) == 3 {
+				for _, k := range strings.Split(parts[2], ",") {
+					if free[k] == nil {
+						ro[i] = "select:err (handed " + k + " which is spent, frozen or already handed out)"
+						break
+					}
+					sum.Add(sum, free[k])
+					handedOut[k] = true
+				}
+			}
+			if ro[i] == "select" && sum.Cmp(prep[i].need) < 0 {
+				ro[i] = fmt.Sprintf("select:err (handed %s for %s asked)", sum, prep[i].need)
+			}
 		}
 		rc.St.Probes["serial-orders-executed"]++
 		if fmt.Sprint(strip(ro)) != fmt.Sprint(strip(outcomes)) {
